@@ -43,6 +43,13 @@ def _root(a):
     return a
 
 
+class Enumerated:
+    """enumerate(seq) over a sequence of symbolic length (only as the iterable of a loop with a sidecar invariant)"""
+
+    def __init__(self, seq):
+        self.seq = seq
+
+
 def exec_for(ex, st):
     """`for` statement.  Ghost protocol for distributed loops: arrays written inside a loop over a block-distributed
     range hold per-process partial results until they pass through allreduce (checked when the region is closed)."""
@@ -95,6 +102,10 @@ def _exec_for_inner(ex, st, it):
         def elem(i):
             return ex.getitem(seq, i, st.lineno)
         return invariant_for(ex, st, Range(0, n), spec, ordinal, elem_fn=elem)
+    if isinstance(it, Enumerated) and spec is not None:
+        seq_ = it.seq.snapshot() if isinstance(it.seq, SymArr) else it.seq
+        n_ = it.seq.shape[0] if isinstance(it.seq, SymArr) else it.seq.length
+        return invariant_for(ex, st, Range(0, n_), spec, ordinal, elem_fn=lambda i: (i, ex.getitem(seq_, i, st.lineno)))
     if not isinstance(it, Range):
         raise Unsupported("iteration over %r @%d" % (it, st.lineno))
     if getattr(ex, "fixed_mode", False):
@@ -729,9 +740,20 @@ def invariant_for(ex, st, rng, spec, ordinal, elem_fn=None):
         raise MergeAbort("invariant loop inside speculative execution")
     fr = ex.frames[-1]
     env = fr.env
-    if not isinstance(st.target, ast.Name):
+    if isinstance(st.target, ast.Name):
+        tnames = [st.target.id]
+    elif isinstance(st.target, ast.Tuple) and elem_fn is not None and all(isinstance(x, ast.Name) for x in st.target.elts):
+        tnames = [x.id for x in st.target.elts]       # `for i, x in enumerate(seq)`: elem_fn gives the tuple
+    else:
         raise Unsupported("loop target @%d" % st.lineno)
-    tname = st.target.id
+    tname = tnames[0]
+
+    def set_target(val):
+        if len(tnames) == 1:
+            env[tnames[0]] = val
+        else:
+            for n_, v_ in zip(tnames, val):
+                env[n_] = v_
     lo, hi = rng.lo, rng.hi
     entry = S.snapshot_env(env)
     tag = "%s#%d" % (fr.finfo.name, ordinal)
@@ -740,7 +762,8 @@ def invariant_for(ex, st, rng, spec, ordinal, elem_fn=None):
         if elem_fn is None:
             env[tname] = i
         else:
-            env[tname] = Poison("loop element outside the body")
+            for n_ in tnames:
+                env[n_] = Poison("loop element outside the body")
 
     def inv_at(i):
         bind(i)
@@ -749,7 +772,7 @@ def invariant_for(ex, st, rng, spec, ordinal, elem_fn=None):
     for k, f in enumerate(inv_at(lo)):
         ex.oblige("loop-inv-init:%s:%d" % (tag, k), f, "loop-invariant", st.lineno)
     mods = modified_targets(ex, st.body, spec.get("modifies", ()))
-    mods = [m for m in mods if not (m[0] == "name" and m[1] == tname)]
+    mods = [m for m in mods if not (m[0] == "name" and m[1] in tnames)]
     hint_key = (fr.finfo.qualname, ordinal)
     havoc(ex, mods, hint_key)
     havocked_dtypes = {m[1]: env[m[1]].dtype for m in mods if m[0] == "name" and isinstance(env.get(m[1]), SymArr)}
@@ -764,12 +787,13 @@ def invariant_for(ex, st, rng, spec, ordinal, elem_fn=None):
         # exit: the counter stands at max(lo, hi)
         ex.assume(bnot(compare("<", i, hi)))
         ex.assume(V.bor(compare("==", i, hi), band(compare("<", hi, lo), compare("==", i, lo))))
-        env[tname] = Poison("loop variable after loop")
+        for n_ in tnames:
+            env[n_] = Poison("loop variable after loop")
         if st.orelse:
             ex.exec_block(st.orelse)
         return
     ex.assume(compare("<", i, hi))
-    env[tname] = i if elem_fn is None else elem_fn(i)
+    set_target(i if elem_fn is None else elem_fn(i))
     pre = S.snapshot_env(env)
     for u in spec.get("use_pre", ()):
         S.use_lemma(ex, u[0], u[1], extra={"_i": i}, entry=entry, pre=pre)
